@@ -1,0 +1,23 @@
+// Copyright 2026, Chef.  All rights reserved.
+// https://github.com/q191201771/lal
+//
+// Use of this source code is governed by a MIT-style license
+// that can be found in the License file.
+//
+// Author: Chef (191201771@qq.com)
+
+package base
+
+import "strings"
+
+// IsStreamNameSafeAsPathItem
+//
+// 流名称会被用于拼接磁盘上的目录名和文件名（HLS、录制），只有当它是单个普通的路径元素时才可以这样使用。
+// 流名称由客户端决定（比如rtmp publish的name字段可以是任意字符串），包含路径分隔符或者等于".", ".."的
+// 流名称拼接后会指向配置的输出目录之外。
+func IsStreamNameSafeAsPathItem(streamName string) bool {
+	if streamName == "" || streamName == "." || streamName == ".." {
+		return false
+	}
+	return !strings.ContainsAny(streamName, "/\\")
+}
